@@ -1,7 +1,7 @@
 //! Comparison of one observed projection with BeliefModel, and the laws that
 //! relate two projections (recording orders, repetition, monotonicity).
 
-use crate::case::{Case, Spec, Stance, GRID};
+use crate::case::{Case, GRID, Spec, Stance};
 use crate::model::{self, Policy, Projection, UNSTATED_TENTHS};
 use crate::world::{Obs, Recorded};
 use anda_kip::Json;
@@ -36,6 +36,9 @@ pub struct Digest {
     pub opposing: Vec<Spec>,
     pub uncertain: Vec<Spec>,
     pub excluded: Vec<Spec>,
+    /// ineligible assertions about the OTHER value of the slot that the answer does not list
+    /// (not demanded by the property; reported as an evidence note)
+    pub other_value_unlisted: u64,
 }
 
 #[derive(Clone, Copy, Debug, PartialEq)]
@@ -57,7 +60,10 @@ impl Digest {
 }
 
 fn ids(v: &Json) -> Option<Vec<String>> {
-    v.as_array()?.iter().map(|x| x.as_str().map(str::to_string)).collect()
+    v.as_array()?
+        .iter()
+        .map(|x| x.as_str().map(str::to_string))
+        .collect()
 }
 
 /// Checks one observed projection (`about_rival`: the proposition about v1
@@ -92,15 +98,22 @@ pub fn check_projection(
                 .collect::<Option<Vec<String>>>()?,
         ))
     })();
-    let Some((status, s_score, o_score, s_groups, o_groups, s_ids, o_ids, u_ids, x_ids)) = parsed else {
-        out.push(finding("malformed-answer", format!("projection output lacks a documented field: {raw}")));
+    let Some((status, s_score, o_score, s_groups, o_groups, s_ids, o_ids, u_ids, x_ids)) = parsed
+    else {
+        out.push(finding(
+            "malformed-answer",
+            format!("projection output lacks a documented field: {raw}"),
+        ));
         return (out, None);
     };
 
     // (g) the answer names the policy that produced it
     let pid = raw["policy"]["id"].as_str().unwrap_or("");
     if pid.is_empty() || raw["policy"]["version"].is_null() {
-        out.push(finding("policy-unnamed", format!("policy block {} names no id/version", raw["policy"])));
+        out.push(finding(
+            "policy-unnamed",
+            format!("policy block {} names no id/version", raw["policy"]),
+        ));
     } else {
         let ok = if policy.custom {
             pid != policy.base_id && pid.starts_with(policy.base_id)
@@ -113,7 +126,11 @@ pub fn check_projection(
                 format!(
                     "query ran under policy '{}' ({}) but the answer names {:?}",
                     policy.name,
-                    if policy.custom { format!("overrides on {}", policy.base_id) } else { policy.base_id.to_string() },
+                    if policy.custom {
+                        format!("overrides on {}", policy.base_id)
+                    } else {
+                        policy.base_id.to_string()
+                    },
                     pid
                 ),
             ));
@@ -121,26 +138,40 @@ pub fn check_projection(
         if obs.context_policy["id"].as_str() != Some(pid) {
             out.push(finding(
                 "policy-context-disagrees",
-                format!("result context names policy {} but the belief names {:?}", obs.context_policy, pid),
+                format!(
+                    "result context names policy {} but the belief names {:?}",
+                    obs.context_policy, pid
+                ),
             ));
         }
     }
     if raw["temporal"]["valid_at"].as_str() != Some(GRID[at]) {
         out.push(finding(
             "evaluation-time-not-pinned",
-            format!("FOR TIME {} but the answer says valid_at {}", GRID[at], raw["temporal"]["valid_at"]),
+            format!(
+                "FOR TIME {} but the answer says valid_at {}",
+                GRID[at], raw["temporal"]["valid_at"]
+            ),
         ));
     }
 
     // (f) range
     for (name, v) in [("support", s_score), ("opposition", o_score)] {
         if !(v.is_finite() && (0.0..=1.0).contains(&v)) {
-            out.push(finding("score-range", format!("{name} score {v} outside [0,1]")));
+            out.push(finding(
+                "score-range",
+                format!("{name} score {v} outside [0,1]"),
+            ));
         }
     }
 
     // id -> ordinal
-    let by_id: BTreeMap<&str, usize> = rec.assertions.iter().enumerate().map(|(i, id)| (id.as_str(), i)).collect();
+    let by_id: BTreeMap<&str, usize> = rec
+        .assertions
+        .iter()
+        .enumerate()
+        .map(|(i, id)| (id.as_str(), i))
+        .collect();
     let mut foreign = Vec::new();
     let mut to_ord = |list: &[String]| -> Vec<usize> {
         list.iter()
@@ -153,7 +184,12 @@ pub fn check_projection(
             })
             .collect()
     };
-    let (s_ord, o_ord, u_ord, x_ord) = (to_ord(&s_ids), to_ord(&o_ids), to_ord(&u_ids), to_ord(&x_ids));
+    let (s_ord, o_ord, u_ord, x_ord) = (
+        to_ord(&s_ids),
+        to_ord(&o_ids),
+        to_ord(&u_ids),
+        to_ord(&x_ids),
+    );
     if !foreign.is_empty() {
         out.push(finding(
             "cross-proposition-influence",
@@ -166,8 +202,14 @@ pub fn check_projection(
     // (c) silence is not rejection
     if !m.any_eligible && status != "insufficient" {
         out.push(finding(
-            if status == "rejected" { "silence-rejected" } else { "silence-not-insufficient" },
-            format!("no eligible assertion about the proposition or a rival value, yet status {status}"),
+            if status == "rejected" {
+                "silence-rejected"
+            } else {
+                "silence-not-insufficient"
+            },
+            format!(
+                "no eligible assertion about the proposition or a rival value, yet status {status}"
+            ),
         ));
     }
     if status == "rejected" && m.opposition.ordinals.is_empty() {
@@ -182,7 +224,10 @@ pub fn check_projection(
         if !x_set.contains(&x) {
             out.push(finding(
                 "excluded-not-listed",
-                format!("ineligible assertion #{x} ({}) is not in explanation.excluded", case.specs()[x].short()),
+                format!(
+                    "ineligible assertion #{x} ({}) is not in explanation.excluded",
+                    case.specs()[x].short()
+                ),
             ));
         }
     }
@@ -190,7 +235,10 @@ pub fn check_projection(
         if s_set.contains(&x) || o_set.contains(&x) || u_set.contains(&x) {
             out.push(finding(
                 "ineligible-contributes",
-                format!("assertion #{x} ({}) must contribute nothing but is counted", case.specs()[x].short()),
+                format!(
+                    "assertion #{x} ({}) must contribute nothing but is counted",
+                    case.specs()[x].short()
+                ),
             ));
         }
     }
@@ -232,10 +280,15 @@ pub fn check_projection(
     if own_listed != m.excluded || s_ids.len() != s_set.len() || o_ids.len() != o_set.len() {
         out.push(finding(
             "model|excluded",
-            format!("excluded ordinals {x_set:?}, model {:?}; or an id listed twice", m.excluded),
+            format!(
+                "excluded ordinals {x_set:?}, model {:?}; or an id listed twice",
+                m.excluded
+            ),
         ));
     }
-    if (s_score - m.support.score.f64()).abs() > EPS_MODEL || (o_score - m.opposition.score.f64()).abs() > EPS_MODEL {
+    if (s_score - m.support.score.f64()).abs() > EPS_MODEL
+        || (o_score - m.opposition.score.f64()).abs() > EPS_MODEL
+    {
         out.push(finding(
             "model|score",
             format!(
@@ -262,6 +315,13 @@ pub fn check_projection(
         opposing: content(&o_set),
         uncertain: content(&u_set),
         excluded: content(&x_set),
+        other_value_unlisted: {
+            let rows = model::ledger(case, upto);
+            m.other_value_ignored
+                .iter()
+                .filter(|i| !model::eligible(&rows[**i].0, rows[**i].1, at, policy) && !x_set.contains(*i))
+                .count() as u64
+        },
     };
     (out, Some(digest))
 }
@@ -270,7 +330,10 @@ pub fn check_projection(
 pub fn compare_orders(first: &Digest, other: &Digest) -> Vec<Finding> {
     let mut out = Vec::new();
     if first.status != other.status {
-        out.push(finding("order-dependence|status", format!("status {} vs {}", first.status, other.status)));
+        out.push(finding(
+            "order-dependence|status",
+            format!("status {} vs {}", first.status, other.status),
+        ));
     }
     if first.s_groups != other.s_groups || first.o_groups != other.o_groups {
         out.push(finding(
@@ -286,9 +349,14 @@ pub fn compare_orders(first: &Digest, other: &Digest) -> Vec<Finding> {
         || first.uncertain != other.uncertain
         || first.excluded != other.excluded
     {
-        out.push(finding("order-dependence|ids", "supporting/opposing/uncertain/excluded sets differ".to_string()));
+        out.push(finding(
+            "order-dependence|ids",
+            "supporting/opposing/uncertain/excluded sets differ".to_string(),
+        ));
     }
-    if (first.s_score - other.s_score).abs() > EPS_ORDER || (first.o_score - other.o_score).abs() > EPS_ORDER {
+    if (first.s_score - other.s_score).abs() > EPS_ORDER
+        || (first.o_score - other.o_score).abs() > EPS_ORDER
+    {
         out.push(finding(
             "order-dependence|score",
             format!(
@@ -323,28 +391,53 @@ fn conf(a: &Spec) -> u8 {
 
 /// (e): `after` = `before` plus assertion `a` (all assertions eligible: mode
 /// stated, no window, active; evaluated under the baseline policy).
-pub fn repetition_law(functional: bool, before_specs: &[Spec], a: &Spec, before: &Summary, after: &Summary) -> Vec<Finding> {
+pub fn repetition_law(
+    functional: bool,
+    before_specs: &[Spec],
+    a: &Spec,
+    before: &Summary,
+    after: &Summary,
+) -> Vec<Finding> {
     let mut out = Vec::new();
     let side = side_of(functional, a);
     if side == SideOf::Neither {
         return out;
     }
-    let m = model::project(&Case::of_specs(functional, before_specs), before_specs.len(), false, 3, &model::POLICIES[0]);
-    let groups = if side == SideOf::Support { &m.support.groups } else { &m.opposition.groups };
+    let m = model::project(
+        &Case::of_specs(functional, before_specs),
+        before_specs.len(),
+        false,
+        3,
+        &model::POLICIES[0],
+    );
+    let groups = if side == SideOf::Support {
+        &m.support.groups
+    } else {
+        &m.opposition.groups
+    };
     // the existing groups `a` joins: those with a member by the same actor or citing common evidence
     let joined: Vec<u8> = groups
         .iter()
-        .filter(|(members, _)| members.iter().any(|i| before_specs[*i].actor == a.actor || before_specs[*i].ev & a.ev != 0))
+        .filter(|(members, _)| {
+            members
+                .iter()
+                .any(|i| before_specs[*i].actor == a.actor || before_specs[*i].ev & a.ev != 0)
+        })
         .map(|(_, max)| *max)
         .collect();
     if joined.is_empty() {
         return out; // a new voice: not the subject of this law
     }
-    let (b_score, a_score, b_groups, a_groups, b_other, a_other, bo_groups, ao_groups) = if side == SideOf::Support {
-        (before.s, after.s, before.sg, after.sg, before.o, after.o, before.og, after.og)
-    } else {
-        (before.o, after.o, before.og, after.og, before.s, after.s, before.sg, after.sg)
-    };
+    let (b_score, a_score, b_groups, a_groups, b_other, a_other, bo_groups, ao_groups) =
+        if side == SideOf::Support {
+            (
+                before.s, after.s, before.sg, after.sg, before.o, after.o, before.og, after.og,
+            )
+        } else {
+            (
+                before.o, after.o, before.og, after.og, before.s, after.s, before.sg, after.sg,
+            )
+        };
     if a_groups > b_groups {
         out.push(finding(
             "repetition|groups-increase",
@@ -372,7 +465,10 @@ pub fn repetition_law(functional: bool, before_specs: &[Spec], a: &Spec, before:
     if (a_other - b_other).abs() > EPS_ORDER || ao_groups != bo_groups {
         out.push(finding(
             "repetition|other-side-changed",
-            format!("adding {} changed the other side {b_other}/{bo_groups} -> {a_other}/{ao_groups}", a.short()),
+            format!(
+                "adding {} changed the other side {b_other}/{bo_groups} -> {a_other}/{ao_groups}",
+                a.short()
+            ),
         ));
     }
     out
@@ -398,7 +494,9 @@ pub fn monotone_law(side: SideOf, before: &Summary, after: &Summary) -> Vec<Find
     if (ao - bo).abs() > EPS_ORDER || before.sg != after.sg || before.og != after.og {
         out.push(finding(
             "monotone|structure-changed",
-            format!("raising one confidence changed groups or the other side: {before:?} -> {after:?}"),
+            format!(
+                "raising one confidence changed groups or the other side: {before:?} -> {after:?}"
+            ),
         ));
     }
     out
